@@ -75,17 +75,17 @@ func c12CheckT(nu float64) string {
 			return fmt.Sprintf("TDist{%v}.CDF not monotone: F(%v)=%v < F(%v)=%v", nu, x, f, prevX, prev)
 		}
 		g := d.CDF(-x)
-		if math.Abs(g-(1-f)) > 1e-12 {
+		if !(math.Abs(g-(1-f)) <= 1e-12) {
 			return fmt.Sprintf("TDist{%v}: F(-%v)=%v but 1-F(%v)=%v", nu, x, g, x, 1-f)
 		}
 		// closed forms for ν = 1, 2
 		switch nu {
 		case 1:
-			if w := 0.5 + math.Atan(x)/math.Pi; math.Abs(f-w) > 1e-12 {
+			if w := 0.5 + math.Atan(x)/math.Pi; !(math.Abs(f-w) <= 1e-12) {
 				return fmt.Sprintf("TDist{1}.CDF(%v) = %v, Cauchy closed form %v", x, f, w)
 			}
 		case 2:
-			if w := 0.5 + x/(2*math.Sqrt(2+x*x)); math.Abs(f-w) > 1e-12 {
+			if w := 0.5 + x/(2*math.Sqrt(2+x*x)); !(math.Abs(f-w) <= 1e-12) {
 				return fmt.Sprintf("TDist{2}.CDF(%v) = %v, closed form %v", x, f, w)
 			}
 		}
@@ -95,9 +95,13 @@ func c12CheckT(nu float64) string {
 			if x > 10 {
 				n = 20000
 			}
-			if w := 0.5 + simpson(d.PDF, 0, x, n); math.Abs(f-w) > 1e-7 {
+			// !(… <= tol) rather than (… > tol): a density that is NaN (or an integral that is) must not pass
+			if w := 0.5 + simpson(d.PDF, 0, x, n); !(math.Abs(f-w) <= 1e-7) {
 				return fmt.Sprintf("TDist{%v}.CDF(%v) = %v, integral of the density %v", nu, x, f, w)
 			}
+		}
+		if pdf := d.PDF(x); math.IsNaN(pdf) || pdf < 0 || math.IsInf(pdf, 0) {
+			return fmt.Sprintf("TDist{%v}.PDF(%v) = %v", nu, x, pdf)
 		}
 		// inverse
 		if pdf := d.PDF(x); pdf > 1e-6 && f < 1-1e-9 {
@@ -106,10 +110,10 @@ func c12CheckT(nu float64) string {
 			// where F is well conditioned, in x up to the resolution of F
 			// itself (its continued fraction stops at 3e-14 and its argument
 			// ν/(ν+x²) rounds to 1 for x² < ν·2⁻⁵³).
-			if back := d.CDF(xi); math.Abs(back-f) > 1e-9 {
+			if back := d.CDF(xi); !(math.Abs(back-f) <= 1e-9) {
 				return fmt.Sprintf("CDF(InvCDF(TDist{%v})(%v)) = %v", nu, f, back)
 			}
-			if math.Abs(xi-x) > 1e-5*(1+math.Abs(x))+math.Sqrt(nu)*3e-8 {
+			if !(math.Abs(xi-x) <= 1e-5*(1+math.Abs(x))+math.Sqrt(nu)*3e-8) {
 				return fmt.Sprintf("InvCDF(TDist{%v})(CDF(%v)=%v) = %v", nu, x, f, xi)
 			}
 		}
@@ -122,7 +126,7 @@ func c12CheckT(nu float64) string {
 			// 1e-12, plus the absolute resolution of exp(lgamma(a+b)-lgamma(a)-…)
 			// for large parameters (lgamma(a) ≈ a·ln a is only known to one ulp).
 			btol := 1e-12 + 8*ulp*a*math.Log(a+2)
-			if math.IsNaN(i1) || math.IsNaN(i2) || math.Abs(i1-(1-i2)) > btol {
+			if math.IsNaN(i1) || math.IsNaN(i2) || !(math.Abs(i1-(1-i2)) <= btol) {
 				return fmt.Sprintf("I_%v(%v,%v) = %v but 1 - I_%v(%v,%v) = %v", bx, a, b, i1, 1-bx, b, a, 1-i2)
 			}
 			if i1 < -1e-15 || i1 > 1+1e-15 {
@@ -148,11 +152,11 @@ func c12CheckNormal(mu, sigma float64) string {
 		}
 		prev = f
 		g := d.CDF(mu - sigma*z)
-		if math.Abs(g-(1-f)) > 1e-15+1e-12*math.Min(f, g) {
+		if !(math.Abs(g-(1-f)) <= 1e-15+1e-12*math.Min(f, g)) {
 			return fmt.Sprintf("NormalDist{%v,%v}: F(mu-%vσ)=%v, 1-F(mu+%vσ)=%v", mu, sigma, z, g, z, 1-f)
 		}
 		if z > 0 && z <= 8 {
-			if w := 0.5 + simpson(d.PDF, mu, x, 4000); math.Abs(f-w) > 1e-9 {
+			if w := 0.5 + simpson(d.PDF, mu, x, 4000); !(math.Abs(f-w) <= 1e-9) {
 				return fmt.Sprintf("NormalDist{%v,%v}.CDF(%v) = %v, integral of the density %v", mu, sigma, x, f, w)
 			}
 		}
@@ -160,7 +164,7 @@ func c12CheckNormal(mu, sigma float64) string {
 			xi := d.InvCDF(f)
 			// conditioning: p is only known to one ulp, which moves x by ulp(p)/density
 			tol := 1e-9*sigma*(1+math.Abs(z)) + 4*(math.Nextafter(f, 2)-f)/d.PDF(x)
-			if math.Abs(xi-x) > tol {
+			if !(math.Abs(xi-x) <= tol) {
 				return fmt.Sprintf("NormalDist{%v,%v}.InvCDF(CDF(%v)=%v) = %v", mu, sigma, x, f, xi)
 			}
 		}
@@ -173,7 +177,7 @@ func c12CheckNormal(mu, sigma float64) string {
 	}
 	for k := 1; k < 1000; k++ {
 		p := float64(k) / 1000
-		if got := d.CDF(d.InvCDF(p)); math.Abs(got-p) > 1e-12 {
+		if got := d.CDF(d.InvCDF(p)); !(math.Abs(got-p) <= 1e-12) {
 			return fmt.Sprintf("NormalDist{%v,%v}: CDF(InvCDF(%v)) = %v", mu, sigma, p, got)
 		}
 	}
@@ -283,14 +287,14 @@ func relClose(a, b, tol float64) bool {
 // t distribution of its own degrees of freedom.
 func checkTails(name string, rs [3]*TTestResult) string {
 	less, diff, greater := rs[0], rs[1], rs[2]
-	if math.Abs(less.P+greater.P-1) > 1e-12 {
+	if !(math.Abs(less.P+greater.P-1) <= 1e-12) {
 		return fmt.Sprintf("%s: P_less + P_greater = %v", name, less.P+greater.P)
 	}
 	d := TDist{diff.DoF}
-	if w := 2 * (1 - d.CDF(math.Abs(diff.T))); math.Abs(diff.P-w) > 1e-12 {
+	if w := 2 * (1 - d.CDF(math.Abs(diff.T))); !(math.Abs(diff.P-w) <= 1e-12) {
 		return fmt.Sprintf("%s: two-sided p = %v, twice the upper tail of |t| = %v", name, diff.P, w)
 	}
-	if w := d.CDF(less.T); math.Abs(less.P-w) > 1e-12 {
+	if w := d.CDF(less.T); !(math.Abs(less.P-w) <= 1e-12) {
 		return fmt.Sprintf("%s: P_less = %v, CDF(t) = %v", name, less.P, w)
 	}
 	for _, r := range rs {
@@ -304,11 +308,11 @@ func checkTails(name string, rs [3]*TTestResult) string {
 	// accuracy near t=0 is about 3e-9·√ν rather than 1e-14.
 	switch diff.DoF {
 	case 1:
-		if w := 0.5 + math.Atan(less.T)/math.Pi; math.Abs(less.P-w) > 1e-8 {
+		if w := 0.5 + math.Atan(less.T)/math.Pi; !(math.Abs(less.P-w) <= 1e-8) {
 			return fmt.Sprintf("%s: P_less = %v, closed form for 1 degree of freedom %v", name, less.P, w)
 		}
 	case 2:
-		if w := 0.5 + less.T/(2*math.Sqrt(2+less.T*less.T)); math.Abs(less.P-w) > 1e-8 {
+		if w := 0.5 + less.T/(2*math.Sqrt(2+less.T*less.T)); !(math.Abs(less.P-w) <= 1e-8) {
 			return fmt.Sprintf("%s: P_less = %v, closed form for 2 degrees of freedom %v", name, less.P, w)
 		}
 	}
@@ -559,17 +563,17 @@ func c12CheckSample(xs []float64) string {
 		return fmt.Sprintf("Bounds(%v) = %v,%v", xs, b0, b1)
 	}
 	wm := ratF64(ratMean(xs))
-	if got := s.Mean(); math.Abs(got-wm) > 4*(n+2)*ulp*scale {
+	if got := s.Mean(); !(math.Abs(got-wm) <= 4*(n+2)*ulp*scale) {
 		return fmt.Sprintf("Mean(%v) = %v, exact %v", xs, got, wm)
 	}
 	if got := Mean(xs); got < mn-4*(n+2)*ulp*scale || got > mx+4*(n+2)*ulp*scale {
 		return fmt.Sprintf("Mean(%v) = %v outside [min,max]", xs, got)
 	}
 	wv := ratF64(ratVar(xs))
-	if got := s.Variance(); math.Abs(got-wv) > 8*(n+2)*ulp*scale*scale || got < 0 {
+	if got := s.Variance(); !(math.Abs(got-wv) <= 8*(n+2)*ulp*scale*scale) || got < 0 {
 		return fmt.Sprintf("Variance(%v) = %v, exact %v", xs, got, wv)
 	}
-	if got := s.StdDev(); math.Abs(got*got-wv) > 16*(n+2)*ulp*scale*scale {
+	if got := s.StdDev(); !(math.Abs(got*got-wv) <= 16*(n+2)*ulp*scale*scale) {
 		return fmt.Sprintf("StdDev(%v)² = %v, exact variance %v", xs, got*got, wv)
 	}
 	// geometric mean
@@ -635,7 +639,7 @@ func c12CheckSample(xs []float64) string {
 				want = ratF64(d)
 			}
 		}
-		if math.Abs(got-want) > 8*(n+2)*ulp*scale {
+		if !(math.Abs(got-want) <= 8*(n+2)*ulp*scale) {
 			return fmt.Sprintf("Percentile(%v) of %v = %v, exact R8 value %v", p, xs, got, want)
 		}
 		if got < mn || got > mx {
@@ -646,7 +650,7 @@ func c12CheckSample(xs []float64) string {
 		}
 		prev = got
 	}
-	if iqr := s.IQR(); math.Abs(iqr-(s.Percentile(0.75)-s.Percentile(0.25))) > 0 {
+	if iqr := s.IQR(); !(math.Abs(iqr-(s.Percentile(0.75)-s.Percentile(0.25))) <= 0) {
 		return fmt.Sprintf("IQR(%v) = %v", xs, iqr)
 	}
 	return ""
